@@ -107,6 +107,18 @@ Proof.
   destruct y, k0 as [|[|]], k1 as [|[|]]; vm_compute; tauto.
 Qed.
 
+(* using the returned reader (Read, Descriptor) is not a step of the protocol *)
+Theorem use_neutral s u s' : estep (EUse u) s = Some s' -> s' = s.
+Proof.
+  cbn. destruct (main s), (st s), (res s), (cl s); congruence.
+Qed.
+
+Theorem use_enabled s u : main s = M_returned -> st s = Blob -> (exists j, res s = ROk j) ->
+  cl s = Cl_none -> estep (EUse u) s = Some s.
+Proof.
+  intros M Y [j R] C. cbn. now rewrite M, Y, R, C.
+Qed.
+
 (* ---------- everything the harness-style runner visits satisfies any step-closed predicate ---------- *)
 
 Section Closed.
@@ -119,7 +131,7 @@ Section Closed.
   Proof. intros H Hs. apply (Pstep s); [assumption|]. unfold step. apply in_or_app. now left. Qed.
 
   Lemma all_events_complete e : In e all_events.
-  Proof. destruct e as [|[|] [|]| |]; cbn; tauto. Qed.
+  Proof. destruct e as [|[|] [|]| | |[| |]]; cbn; tauto. Qed.
 
   Lemma estep_in e s s' : estep e s = Some s' -> In s' (env_steps s).
   Proof.
